@@ -74,7 +74,8 @@ def main(ck):
         "Go chan semantics (buffer + queue of parked senders; send/close on a closed channel panic; close wakes parked senders into a panic) and sync.RWMutex as a reader/writer lock — assumed, stated in coq/C09/Model.v",
         "the controlled scheduler harness/cmd/c09 (reads goroutine states from runtime.Stack; one goroutine released at a time) and the verif yield hook std/channel/verif_yield_on.go",
         "the Go memory model and the race detector are not modelled: -race stress is validation/search, not proof",
-        "script-level wrappers (channel_methods.go: receive() maps (nil,false) to null) and spawn are not in the model; Construct on a live channel is not modelled",
+        "script-level wrappers (channel_methods.go: receive() maps (nil,false) to null) and spawn are not in the model; Construct on a live channel is not modelled (Construct is treated as the constructor: it runs before the channel is shared)",
+        "the go/ast lock walker harness/cmd/c10/walker.go (syntactic, fails closed) for the data-race obligation well_locked channel_table",
     ]
     ck.prove()
     binary, _ = ck.go_build("c09")
@@ -82,6 +83,48 @@ def main(ck):
     if binary is None or racebin is None:
         ck.broken.append("harness-build")
         ck.finish(evaluations=0, distinct_nontrivial=0, rule="harness did not build")
+
+    # ---------------------------------------------------------------- data-race clause: regenerated lock table
+    # The walker of C10 (harness/cmd/c10, go/ast) reads std/channel/channel.go: per method of *Channel the ordered
+    # RWMutex operations and accesses to the struct's fields; `Construct` is the constructor (PHP __construct: it runs
+    # before the object is shared), so a field only it writes (`channel`) is immutable afterwards.  The obligation
+    # `well_locked channel_table = true` and its instance of the generic race-freedom theorem are re-checked by coqc.
+    import os
+    wbin, _ = ck.go_build("c10")
+    if wbin is None:
+        ck.broken.append("harness-build:walker")
+    else:
+        rc, table = vcheck.sh([wbin, "walk", vcheck.REPO, "std/channel", "Channel", "channel.go", "Construct"])
+        if rc != 0 or "Definition vm_fields" not in table:
+            ck.log("walker failed:\n" + table[-1500:])
+            ck.broken.append("translator:lock-walker(channel.go)")
+        else:
+            body = table[table.index("Definition vm_fields"):].replace("vm_fields", "channel_fields").replace("vm_map_fields", "channel_map_fields").replace("vm_table", "channel_table")
+            pre = "(* GENERATED — lock table of std/channel/channel.go *)\nFrom Coq Require Import List String.\nImport ListNotations.\nFrom V.Common Require Import LockDiscipline.\nOpen Scope string_scope.\n\n"
+            obl = os.path.join(ck.bdir, "ChannelLockObligations.v")
+            open(obl, "w").write(pre + body + "\nSet Printing Width 100000.\n"
+                                 "Definition ill := Eval vm_compute in ill_locked channel_table.\nPrint ill.\n"
+                                 "Lemma channel_table_well_locked : well_locked channel_table = true.\nProof. vm_compute. reflexivity. Qed.\n"
+                                 "Theorem channel_race_free : forall progs sched, Forall (from_table channel_table) progs -> ~ race (LockDiscipline.run (init_state progs) sched).\n"
+                                 "Proof. exact (well_locked_race_free_l channel_table channel_table_well_locked). Qed.\n"
+                                 "(* the entries the model relies on: Send checks `closed` under the read lock, Close checks and sets it under the write lock *)\n"
+                                 "Lemma channel_send_close_shape :\n"
+                                 "  (exists c, In (\"Send\", ARLock :: ARead c :: ARUnlock :: nil) channel_table /\\ In (\"Close\", ALock :: ARead c :: AWrite c :: AUnlock :: nil) channel_table).\n"
+                                 "Proof. vm_compute. eexists. split; repeat (try (left; reflexivity); right). Qed.\n"
+                                 "Print Assumptions channel_race_free.\n")
+            rc, o = ck.coqc(obl, cwd=ck.bdir, timeout=300)
+            ck.obligations += 3
+            ck.checker_cmds.append("coqc .build/C09/ChannelLockObligations.v (regenerated from std/channel/channel.go by `c10 walk`)")
+            m = re.search(r"ill\s*=\s*\[(.*?)\]\s*:\s*list string", o, re.S)
+            ill = re.findall(r'"([^"]+)"', m.group(1)) if m else []
+            ck.cov["channel_ill_locked_methods"] = ill
+            if rc == 0:
+                ck.discharged += 3
+                ck.theorems += ["channel_table_well_locked", "channel_race_free", "channel_send_close_shape"]
+            else:
+                ck.log("regenerated channel lock obligations FAILED; ill-locked: %s\n%s" % (ill, o[-1200:]))
+                ck.broken.append("obligation:well_locked channel_table (ill-locked: %s)" % ",".join(ill))
+                ck.coq_log_tail = o[-1500:]
 
     # ---------------------------------------------------------------- controlled schedules
     cases = []
